@@ -279,7 +279,7 @@ func genOp(t *rapid.T, kinds []string, hp *HistoryParams, depth int) Op {
 	case "resync", "syncips", "deliver", "drop", "restart", "quiesce", "fipevent":
 	case "episode":
 		n := rapid.IntRange(2, 3).Draw(t, "nSub")
-		sub := []string{"sched", "sched", "filter", "bind", "unbind", "resync", "apirelease", "deliver", "poolapi", "syncips"}
+		sub := []string{"sched", "sched", "filter", "bind", "unbind", "resync", "apirelease", "deliver", "poolapi", "syncips", "newsched"}
 		if hp.Reloads {
 			sub = append(sub, "reload", "reload")
 		}
@@ -428,7 +428,7 @@ func GenHistory(t *rapid.T, hp *HistoryParams) Case {
 		}
 		maxKind := 8
 		if hp.Episodes {
-			maxKind = 17
+			maxKind = 18
 		}
 		sched := func() []int { return GenSchedule(t) }
 		pk := rapid.IntRange(0, maxKind).Draw(t, "phraseKind")
@@ -436,6 +436,19 @@ func GenHistory(t *rapid.T, hp *HistoryParams) Case {
 			pk = 16
 		}
 		switch pk {
+		case 18: // a pod is retired and its reservation handled; an administrator's release request is under way (it has checked that
+			// no such pod runs) while the controller creates the next incarnation and the scheduler binds it
+			var s18 []int
+			for i, k := 0, 1+uniformInt(t, 14, "releasePrefix"); i < k; i++ {
+				s18 = append(s18, 0)
+			}
+			for i := 0; i < 80; i++ {
+				s18 = append(s18, 1)
+			}
+			ns := ab("newsched")
+			ns.B |= 1 // the controller re-creates a name that existed before
+			c.Ops = append(c.Ops, ab("delete"), Op{K: "deliver"}, Op{K: "deliver"}, ab("unbind"),
+				Op{K: "episode", Sub: []Op{ab("apireleasable"), ns}, Sched: s18}, ab("create"), ab("sched"))
 		case 17: // the periodic pod-IP sync has read an old incarnation from the cache; its delete event, its unbind, the cache update and
 			// the replacement's scheduling all run before the sync goes on
 			var s17 []int
